@@ -120,3 +120,98 @@ def stress_oracle(r):
                     bad("final-lost", "after all clients stopped a key is missing although it was set and never deleted afterwards")
                     break
     return viol
+
+
+# ----------------------------------------------------------------------------- split reads (C04) on the model
+SR_HEADER = """From Coq Require Import NArith ZArith List String.
+From GB Require Import Words Compress Bucket BucketOpen CheckL2 Sched CheckSched.
+Import ListNotations. Open Scope N_scope. Open Scope string_scope.
+"""
+
+
+def sr_case(r):
+    cf = r["cfg"]
+    cfg = "(mkCfg %d %d %d %s %s false %s)" % (cf["filemax"], cf["bodymax"], cf["splitcap"], vlib.cbool(cf["checkvhash"]),
+                                              vlib.cZ(cf["treedump"]), vlib.cZ(cf["nogcdays"]))
+    evs = []
+    for e in r["evs"]:
+        o = e["o"]
+        if e["ev"] == "A":
+            evs.append("(CAtomic (%s), Some %s)" % (l2common.c_op(o), l2common.c_out(o)))
+        elif e["ev"] == "B":
+            evs.append("(CBegin %d %s %s, None)" % (e["c"], vlib.cstr(o["k"]), vlib.cbool(o["op"] == "M")))
+        else:
+            evs.append("(CEnd %d, Some %s)" % (e["c"], l2common.c_out(o)))
+    return "(%d, mkL2 %s [] %s, %s)" % (r["i"], cfg, vlib.cZ(cf["now"]), vlib.clist(evs))
+
+
+def sr_evaluate(ctx, rs, tag, per=10):
+    """replay split-read traces on model/Sched.v; returns (mismatches, shards, shards_ok)"""
+    shards = []
+    for k in range(0, len(rs), per):
+        text = (SR_HEADER + "Definition cases : list ccase := [\n" + ";\n".join(sr_case(r) for r in rs[k:k + per]) + "].\n"
+                "Definition MM := Eval vm_compute in c_check cases.\nPrint MM.\n")
+        shards.append(("%s_%03d" % (tag, k // per), text))
+    results = vlib.run_coq_shards(os.path.join(ctx.work, "cases"), shards, timeout=3000)
+    byi = {r["i"]: r for r in rs}
+    mm, ok = [], 0
+    for name, rc, out in results:
+        a = vlib.parse_numlist(out, "MM")
+        if rc != 0 or a is None:
+            ctx.logf("shard", name, "failed rc", rc, out[-800:])
+            mm.append(dict(shard=name, what="case file did not evaluate", out=out[-300:]))
+            continue
+        if not a:
+            ok += 1
+        for x in a:
+            i, k = divmod(x, 10000)
+            r = byi[i]
+            e = r["evs"][k - 1] if k - 1 < len(r["evs"]) else {}
+            o = dict(e.get("o") or {})
+            for f in ("v",):
+                if isinstance(o.get(f), str) and len(o[f]) > 60:
+                    o[f] = o[f][:60] + "..."
+            mm.append(dict(case=dict(i=i, seed=r.get("seed"), scenario="splitread", variant=r["variant"]), ev_index=k - 1,
+                           ev=dict(ev=e.get("ev"), c=e.get("c"), o=o), differs="reply"))
+    return mm, len(shards), ok
+
+
+def splitread_oracle(r):
+    """independent judgement: a read parked after its lookup must answer what the key held at the lookup
+    (reference map replayed in python over the atomic events)"""
+    viol = []
+
+    def bad(kind, what, idx):
+        viol.append(dict(kind=kind, what=what, case=dict(i=r["i"], seed=r.get("seed"), scenario="splitread", variant=r["variant"], ev_index=idx)))
+
+    cur = {}          # key -> (value hex or None for deleted/absent)
+    snap = {}
+    for idx, e in enumerate(r["evs"]):
+        o = e["o"]
+        if e["ev"] == "A":
+            if o["op"] == "S" and o["res"] == "STORED":
+                cur[o["k"]] = o["v"]
+            elif o["op"] == "D" and o["res"] == "DELETED":
+                cur[o["k"]] = None
+            elif o["op"] == "G":
+                want = cur.get(o["k"])
+                got = o["out"][0] if o["res"] == "HIT" else None
+                if o["res"] not in ("HIT", "MISS"):
+                    bad("read-error", "a get answered %s" % o["res"], idx)
+                elif want != got:
+                    bad("stale-read", "a get outside any race did not return the last stored value", idx)
+        elif e["ev"] == "B":
+            snap[e["c"]] = (o["k"], cur.get(o["k"]))
+        else:
+            k, want = snap.pop(e["c"])
+            if o["op"] == "G":
+                got = o["out"][0] if o["res"] == "HIT" else None
+                if o["res"] not in ("HIT", "MISS"):
+                    bad("read-error", "a delayed get answered %s" % o["res"], idx)
+                elif got != want and got != cur.get(k):
+                    # any value current at some point between lookup and response is linearizable; the
+                    # implementation always answers the lookup-time value, the model comparison pins that down
+                    bad("read-unwritten-or-stale", "a delayed get returned a value the key held neither at its lookup nor at its response", idx)
+            elif o["res"] not in ("META", "MISS"):
+                bad("read-error", "a delayed meta-get answered %s" % o["res"], idx)
+    return viol
